@@ -4,13 +4,16 @@ import (
 	"bytes"
 	"encoding/json"
 	"fmt"
+	"math/big"
 	"os"
 	"os/exec"
+	"runtime"
 	"sort"
 	"strings"
 	"syscall"
 	"time"
 
+	"seehuhn.de/go/postscript/afm"
 	"seehuhn.de/go/postscript/psenc"
 	"seehuhn.de/go/postscript/type1"
 	"vharness/indep"
@@ -145,6 +148,49 @@ func renderT1Shape(shape string, n int) ([]byte, error) {
 	return indep.WriteFont(spec, indep.Layout{Cont: "clear", LenIV: 4, Names: "RD", Enc: "std"})
 }
 
+// renderAFMShape: AFM files in which one of the lines that announce a number of entries carries a
+// count of about 2^e (the entries themselves are two or three).
+func renderAFMShape(shape string, e int) [][]byte {
+	one := new(big.Int).Lsh(big.NewInt(1), uint(e))
+	counts := []string{new(big.Int).Sub(one, big.NewInt(1)).String(), one.String(), new(big.Int).Neg(one).String()}
+	var out [][]byte
+	for _, kw := range []string{"StartCharMetrics", "StartKernPairs", "StartKernPairs0", "StartKernPairs1", "StartTrackKern", "StartComposites"} {
+		for _, c := range counts {
+			n := map[string]string{"StartCharMetrics": "2", "StartKernPairs": "2", "StartKernPairs0": "2", "StartKernPairs1": "2", "StartTrackKern": "1", "StartComposites": "1"}
+			n[kw] = c
+			var sb strings.Builder
+			sb.WriteString("StartFontMetrics 4.1\nFontName Counts\nFullName Counts\nFamilyName Counts\nWeight Regular\nItalicAngle 0\nIsFixedPitch false\n")
+			sb.WriteString("StartCharMetrics " + n["StartCharMetrics"] + "\nC 65 ; WX 600 ; N A ; B 0 0 500 700 ;\nC 66 ; WX 610 ; N B ; B 0 0 510 700 ;\nEndCharMetrics\n")
+			sb.WriteString("StartKernData\n")
+			sb.WriteString("StartTrackKern " + n["StartTrackKern"] + "\nTrackKern 0 8 0 72 0\nEndTrackKern\n")
+			pairs := "KPX A B -30\nKPX B A -20\n"
+			switch kw {
+			case "StartKernPairs0":
+				sb.WriteString("StartKernPairs0 " + c + "\n" + pairs + "EndKernPairs\n")
+			case "StartKernPairs1":
+				sb.WriteString("StartKernPairs1 " + c + "\n" + pairs + "EndKernPairs\n")
+			default:
+				sb.WriteString("StartKernPairs " + n["StartKernPairs"] + "\n" + pairs + "EndKernPairs\n")
+			}
+			sb.WriteString("EndKernData\n")
+			sb.WriteString("StartComposites " + n["StartComposites"] + "\nCC Aacute 2 ; PCC A 0 0 ; PCC B 100 200 ;\nEndComposites\n")
+			sb.WriteString("EndFontMetrics\n")
+			out = append(out, []byte(sb.String()))
+		}
+	}
+	return out
+}
+
+func firstCountLine(data []byte) string {
+	for _, l := range strings.Split(string(data), "\n") {
+		f := strings.Fields(l)
+		if len(f) == 2 && strings.HasPrefix(f[0], "Start") && len(f[1]) > 4 {
+			return l
+		}
+	}
+	return ""
+}
+
 func shapeBudget(shape string, n int) int {
 	if shape == "cvx-nest-bind" {
 		return 12*n + 100 // enough to build all levels: the budget is the caller's choice
@@ -161,6 +207,27 @@ func runShapeChild(args []string) error {
 	var lim syscall.Rlimit
 	lim.Cur, lim.Max = 6<<30, 6<<30
 	syscall.Setrlimit(syscall.RLIMIT_AS, &lim)
+	if strings.HasPrefix(args[0], "afm-") {
+		// every file of the shape in turn; an allocation far beyond the size of the input is reported
+		// like an abort (the address-space limit catches the really absurd ones)
+		files := renderAFMShape(args[0], n)
+		nerr := 0
+		for _, data := range files {
+			var m0, m1 runtime.MemStats
+			runtime.ReadMemStats(&m0)
+			_, e := afm.Read(bytes.NewReader(data))
+			runtime.ReadMemStats(&m1)
+			if e != nil {
+				nerr++
+			}
+			if grown := m1.TotalAlloc - m0.TotalAlloc; grown > 64<<20 {
+				fmt.Printf("absurd allocation: %d bytes allocated while reading %d bytes: %q\n", grown, len(data), firstCountLine(data))
+				os.Exit(3)
+			}
+		}
+		fmt.Printf("returned err=%v files=%d errors=%d\n", nerr > 0, len(files), nerr)
+		return nil
+	}
 	if strings.HasPrefix(args[0], "t1-") {
 		data, err := renderT1Shape(args[0], n)
 		if err != nil {
@@ -205,7 +272,9 @@ func runShapes(args []string) error {
 			}
 			// shapes whose program does not depend on the size run once
 			key := v.Shape
-			if strings.HasPrefix(v.Shape, "t1-") {
+			if strings.HasPrefix(v.Shape, "afm-") {
+				key += fmt.Sprint(v.Size)
+			} else if strings.HasPrefix(v.Shape, "t1-") {
 				if data, err := renderT1Shape(v.Shape, v.Size); err == nil {
 					key += string(data)
 				}
